@@ -155,11 +155,15 @@ CLAIMED = {
             'from the C01 induction; the outputs of a run are the recorder numbering of its sequence of sends (planOutputs_eq_numberK), '
             'under key (alias, n) lies the n-th send on that alias (induction over the sends, any starting counters), hence two runs '
             'differ under a key iff it is (alias, n) and their n-th sends on that alias differ, and a single changed value shows '
-            'under exactly one key; tied to /repo by program pairs (P, edit of P) whose expected output maps are computed from '
+            'under exactly one key; replay side by induction over the replayed program: the captured outputs of replaying any program '
+            'against any recording are the numbering of the calls it makes along its replay path (replay_outputs_are_sent), so the '
+            'recorded-versus-playback comparison differs exactly at the keys whose n-th sends differ; tied to /repo by program pairs (P, edit of P) whose expected output maps are computed from '
             'the programs alone',
             'Kernel-checked entry-level and whole-run statements for all programs; key-text injectivity for all aliases and '
             'all ordinals. The "difference at exactly the affected entries and nowhere else" sentence is a theorem for every pair '
-            'of programs (C03_difference_exact, C03_entry_is_nth_send, C03_single_changed_value), stated over the planned '
+            'of programs (C03_difference_exact, C03_entry_is_nth_send, C03_single_changed_value; recorded outputs of P against the outputs '
+            'captured while any P\' replays against any recording: C03_playback_outputs_are_sent, C03_replay_difference_exact, '
+            'for replayed programs without run-original sites), stated over the planned '
             'outputs of a run, which C03_recorded_is_sent ties to the recording the run leaves.',
             'Trusted: Lean kernel; recorder model tied by differential execution; known finding K4 (arguments stored by '
             'reference) excluded: values are immutable in the model; known finding K10 (a replay started inside a recorded operation restarts the output numbering) is outside the model: no replay is started from inside a recorded operation.', 'DESIGN.md 6/C03'),
